@@ -23,7 +23,7 @@ RULE = ('cases: seeded worlds (SpaceWorld continuous, DiscreteWorld/GridWorld/Li
         'max(leeway, axis leeway) (seam-aware distance on positive-extent axes of wrapping worlds), in joining order. Non-trivial '
         'query: >=1 agent exactly on a face and the answer is neither empty nor everybody; distinct by (world, population, query).')
 ASSUMPTIONS = ['coordinates and leeways are multiples of 1/8 (exact float arithmetic)', 'F5 (wrap seam ignored) is a known finding, not repaired']
-FLOORS = {'quick': {'queries_with_numpy_scalars': 1226, 'queries': 12000, 'queries_nonwrap': 6090, 'queries_wrap': 6135, 'on_face_agents': 5000, 'nonempty_answers': 4843,
+FLOORS = {'quick': {'answers_edited_by_the_caller': 3308, 'namesakes_in_another_world': 3222, 'queries_with_numpy_scalars': 1226, 'queries': 12000, 'queries_nonwrap': 6090, 'queries_wrap': 6135, 'on_face_agents': 5000, 'nonempty_answers': 4811,
                     'empty_answers': 2000, 'negative_leeway_queries': 1000, 'axis_leeway_larger': 3000, 'general_leeway_larger': 3000,
                     'query_outside_world': 2000, 'coincident_pairs': 500, 'big_worlds': 8, 'big_queries': 150, 'agents_with_position_subclass_component': 1000, 'second_world_on_same_model': 300, 'reach:Environments.SpaceWorld.get_agents_at': 12000},
           'thorough': {'queries': 1000000, 'on_face_agents': 400000}}
@@ -99,7 +99,20 @@ def case_world(ctx, case):
             env.add_agent(a, *[rnd_coord(k) for k in range(3)])
             order.append(a)
     nontrivial = False
+    # a world of ANOTHER model is alive as well and gets agents with the SAME ids, placed elsewhere and moved around, while we query ours
+    twin_model = core.Model()
+    twin_env = envs.SpaceWorld(twin_model, 60.0, 60.0, 60.0)
+    twin_model.environment = twin_env
+    namesakes = {}
     for qn in range(10):
+        for a in pool:
+            x = rng.random()
+            if a.id not in namesakes and x < 0.3:
+                namesakes[a.id] = core.Agent(a.id, twin_model)
+                twin_env.add_agent(namesakes[a.id], *[float(rng.randint(0, 59)) for _ in range(3)])
+                ctx.count('namesakes_in_another_world')
+            elif a.id in namesakes and x < 0.3:
+                twin_env.move_to(namesakes[a.id], *[float(rng.randint(0, 59)) for _ in range(3)])
         # population change since placement
         for a in pool:
             x = rng.random()
@@ -203,8 +216,16 @@ def case_world(ctx, case):
                             {'case': case, **{k: v for k, v in detail.items()}, 'missing': [a.id for a in missing]})
             else:
                 raise CaseViolation('get_agents_at differs from the leeway box' + (' (order)' if not extra and not missing else ''),
-                                    expected=[a.id for a in expected], extra=[a.id for a in extra], missing=[a.id for a in missing],
+                                    expected=[a.id for a in expected], extra=[getattr(a, 'id', a) for a in extra], missing=[a.id for a in missing],
                                     **detail)
+        # the answer belongs to the caller, who may do with it what it likes
+        junk = rng.random()
+        if junk < 0.3:
+            got.append('not an agent')
+            ctx.count('answers_edited_by_the_caller')
+        elif junk < 0.4:
+            got.clear()
+            ctx.count('answers_edited_by_the_caller')
         if faced and 0 < len(expected) < len(order):
             nontrivial = True
             ctx.distinct((kind, tuple(ext), wrap, tuple(a.components[P].xyz() for a in order), tuple(q), L, tuple(AL)))
@@ -212,7 +233,7 @@ def case_world(ctx, case):
     if case['i'] < 3:
         ctx.sample({'kind': 'world', 'i': case['i'], 'world': kind, 'extents': ext, 'wrap': wrap,
                     'last_query': {'q': q, 'leeway': L, 'axis': AL, 'population': [(a.id, a.components[P].xyz()) for a in order],
-                                   'answer': [a.id for a in got]}})
+                                   'answer': [getattr(a, 'id', a) for a in got]}})
 
 
 
